@@ -81,11 +81,18 @@ def generate(rng, tier, seed):
         # format 4 additionally with random halves that start with runs of the fill digit A)
         for ln in range(4, 13):
             halves = [None] if fmt != 4 else [None, [10] * 16, [10] * (14 - ln) + [rng.randrange(16) for _ in range(16 - (14 - ln))],
-                                              [10] + [rng.randrange(16) for _ in range(15)]]
+                                              [10] + [rng.randrange(16) for _ in range(15)],
+                                              # the free half is free: constant and degenerate values are as good as any
+                                              [0] * 16, [15] * 16, [0] * 15 + [1], [8] + [0] * 15, [5, 10] * 8]
             for hv in halves:
                 base = [fmt, ln] + body(rng, fmt, ln, total)
                 if hv is not None:
                     base[16:] = hv
+                    c = Case(f"fmt{fmt}:well-formed-with-special-half", {"len": ln})
+                    one(c, fmt, list(base), pan, mask)
+                    yield c
+                    if hv[:1] not in ([10],) and hv != [10] * 16:
+                        continue       # deviations are enumerated for the halves that begin like the fill
                 positions = range(0, 16) if (hv is None or tier == "thorough") else range(2 + ln, 16)
                 for pos in positions:
                     for val in range(16):
